@@ -131,3 +131,12 @@ func (r *Raft) VerifElectSelf() {
 	r.setState(Candidate)
 	r.electSelf()
 }
+
+// VerifCommitmentIndex: the commit index the leader's commitment tracker has computed so far (0 when not leader).
+// Read without the tracker's lock: only call it from a thread of this server under the cooperative scheduler.
+func (r *Raft) VerifCommitmentIndex() uint64 {
+	if r.getState() != Leader || r.leaderState.commitment == nil {
+		return 0
+	}
+	return r.leaderState.commitment.commitIndex
+}
